@@ -30,8 +30,8 @@ Fixpoint corr_kept (rs : rsrc) (c : config) (p : pworld) (steps : list (bytes * 
   | (input, o) :: steps' =>
     let lg0 := pw_log p in
     let '(p', r) := request_kept efuel rs c p input in
-    if pw_taint p' || is_fuel (r_exec r) || is_ffuel (r_flush r) then 0 else
-    if resp_ok r (pw_store p') (new_events lg0 (pw_log p')) o
+    if (pw_taint p' && taint_stops c) || is_fuel (r_exec r) || is_ffuel (r_flush r) then 0 else
+    if resp_ok_gen (negb (pw_taint p')) r (pw_store p') (new_events lg0 (pw_log p')) o
     then corr_kept rs c p' steps' (k + 1) else k
   end.
 Definition kept_corr_ok (ec : ecase) : bool :=
